@@ -12,6 +12,7 @@ import (
 	"time"
 
 	bolt "go.etcd.io/bbolt"
+	"go.etcd.io/bbolt/xverif/dec"
 	"go.etcd.io/bbolt/xverif/sim"
 	"go.etcd.io/bbolt/xverif/work"
 )
@@ -34,6 +35,14 @@ type batchExtra struct {
 	MaxBatchDelay int           `json:"max_batch_delay_us"`
 	Callers       [][]batchCall `json:"callers"`
 	Updaters      int           `json:"updaters"` // plain Update callers competing for the writer lock
+	// I/O faults injected while the callers run (armed-call indices): a batch whose commit fails must
+	// report the failure to every caller in it and commit none of their effects
+	Faults []sim.FaultPlan `json:"faults,omitempty"`
+}
+
+// injectedErr reports whether err stems from an injected I/O fault (bbolt wraps some of them with %s).
+func injectedErr(err error) bool {
+	return err != nil && (sim.IsInjected(err) || strings.Contains(err.Error(), "xverif injected"))
 }
 
 func (bs batchsim) Gen(prop, tier string, ts *sim.Tapes) *Case {
@@ -57,6 +66,12 @@ func (bs batchsim) Gen(prop, tier string, ts *sim.Tapes) *Case {
 		ex.Callers = append(ex.Callers, calls)
 	}
 	ex.Updaters = t.Pick(3, 1, 1)
+	if ft := ts.Get("fault"); ft.Chance(1, 3) {
+		nf := 1 + ft.Intn(2)
+		for i := 0; i < nf; i++ {
+			ex.Faults = append(ex.Faults, sim.FaultPlan{K: ft.Intn(10 * n), Kind: []string{"eio", "short", "enospc"}[ft.Intn(3)]})
+		}
+	}
 	c := &Case{Prop: prop, Engine: bs.Name(), Tier: tier, Seed: ts.Seed, Run: ts.Run, Prog: &work.Program{Cfg: cfg}, Tapes: map[string][]uint64{},
 		Params: map[string]int{"stickiness": []int{0, 50, 80, 95}[t.Pick(1, 2, 3, 2)]}}
 	c.Extra, _ = json.Marshal(ex)
@@ -115,6 +130,18 @@ func (bs batchsim) runInBubble(c *Case, dir string, out *Outcome) {
 	s.KeepTrace = os.Getenv("VERIF_TRACE") != ""
 	cfg := c.Prog.Cfg
 	w := &sim.World{MapOrder: cfg.MapOrder, Order: orderTape, Sched: s}
+	var disk *sim.Disk
+	if len(ex.Faults) > 0 {
+		disk = sim.NewDisk(path)
+		disk.PageSize = cfg.PageSize
+		disk.Multi = ex.Faults
+		disk.Veto = func(op string, afterMeta bool) bool {
+			// a failing final sync may legitimately leave the transaction present (C08's exception) and a
+			// failing (un)map leaves the DB unusable: neither is what C16 speaks about
+			return (op == "fdatasync" && afterMeta) || op == "mmap" || op == "munmap" || op == "mlock" || op == "munlock"
+		}
+		w.Disk = disk
+	}
 	w.Install()
 	defer sim.Uninstall()
 
@@ -135,6 +162,9 @@ func (bs batchsim) runInBubble(c *Case, dir string, out *Outcome) {
 		if len(viol) < 10 {
 			viol = append(viol, &work.Violation{Prop: "C16", Class: class, Msg: fmt.Sprintf(f, a...)})
 		}
+	}
+	if disk != nil {
+		disk.Arm(true)
 	}
 	var results []*callResult
 	for ci, calls := range ex.Callers {
@@ -212,7 +242,9 @@ func (bs batchsim) runInBubble(c *Case, dir string, out *Outcome) {
 				err := db.Update(func(tx *bolt.Tx) error {
 					return tx.Bucket([]byte("b")).Put([]byte(fmt.Sprintf("upd-%d-%d", u, i)), []byte("x"))
 				})
-				if err != nil {
+				if err != nil && disk != nil && disk.FiredN > 0 && injectedErr(err) {
+					out.probe("updater-commit-failed-by-injected-fault", 1)
+				} else if err != nil {
 					fail("updater-error", "plain Update failed: %v", err)
 				} else {
 					updaterCommits++
@@ -221,6 +253,12 @@ func (bs batchsim) runInBubble(c *Case, dir string, out *Outcome) {
 		})
 	}
 	s.Run()
+	if disk != nil {
+		disk.Arm(false)
+		if disk.FiredN > 0 {
+			out.fault("io-fault-during-batch-commit", disk.FiredN)
+		}
+	}
 	out.Decisions = s.Decisions
 	out.SimTimeNS = int64(time.Since(s.SimStart))
 	out.Interleaved = []uint64{s.Fingerprint()}
@@ -294,7 +332,11 @@ func (bs batchsim) runInBubble(c *Case, dir string, out *Outcome) {
 				fail("effect-of-failed-call", "call %d/%d returned %v but its token is committed", r.caller, r.k, r.err)
 			}
 			own := r.err == r.ownErr || strings.Contains(r.err.Error(), r.ownPanic)
-			if !own {
+			if !own && disk != nil && disk.FiredN > 0 && injectedErr(r.err) {
+				// the commit of the batch this call was in failed: every caller of that batch is told so and
+				// (checked above) none of its effects are committed
+				out.probe("batch-call-failed-by-injected-commit-failure", 1)
+			} else if !own {
 				fail("foreign-error", "call %d/%d (plan %s) returned %q which is not its own error or panic value", r.caller, r.k, r.plan, r.err.Error())
 			} else if !wantErr {
 				fail("spurious-failure", "call %d/%d (plan %s, %d invocations) returned %v although its last invocation succeeded", r.caller, r.k, r.plan, r.invocations, r.err)
@@ -310,6 +352,18 @@ func (bs batchsim) runInBubble(c *Case, dir string, out *Outcome) {
 	out.probe("fn-reinvoked", retried)
 	if err := db.Close(); err != nil {
 		fail("close-error", "%v", err)
+	}
+	if disk != nil && disk.FiredN > 0 && len(viol) == 0 {
+		// the file left behind by batches with failed commits is a consistent database
+		if data, rerr := os.ReadFile(path); rerr == nil {
+			if im, derr := dec.Load(data); derr != nil {
+				fail("file-after-failed-batch", "decoder: %v", derr)
+			} else if wi, ok := im.Winner(); !ok {
+				fail("file-after-failed-batch", "no valid meta page")
+			} else if res := im.Decode(wi); res.Fatal != "" || !res.Clean() {
+				fail("file-after-failed-batch", "page accounting after failed batch commits: %s %s", res.Fatal, res.ProblemString())
+			}
+		}
 	}
 	out.Viol = viol
 	out.Evals = 1
@@ -354,6 +408,11 @@ func (bs batchsim) Shrinks(c *Case) []*Case {
 		e2.Updaters = 0
 		emit(e2)
 	}
+	for i := range ex.Faults {
+		e2 := ex
+		e2.Faults = append(append([]sim.FaultPlan(nil), ex.Faults[:i]...), ex.Faults[i+1:]...)
+		emit(e2)
+	}
 	if st := c.Tapes["sched"]; len(st) > 1 {
 		for _, k := range []int{len(st) / 2, len(st) * 3 / 4} {
 			d := c.Clone()
@@ -366,7 +425,7 @@ func (bs batchsim) Shrinks(c *Case) []*Case {
 
 func init() {
 	register(&Info{Prop: "C16", Engine: batchsim{}, Level: "exploration", QuickS: 45, ThoroughS: 600,
-		RealStub: "real: all of bbolt incl. DB.Batch, its timer (time.AfterFunc) and the goroutines it spawns, real sync primitives; simulated: which goroutine runs next (token scheduler; goroutines bbolt spawns are adopted at the batch.trigger hook), the clock (synctest bubble: MaxBatchDelay timers fire only when the scheduler advances time), map iteration order",
-		Rule:     "one evaluation = one seeded run of 1-8 caller tasks issuing 1-3 Batch calls each (plus optional plain Update callers) with MaxBatchSize in {0,1,2,3,1000}, MaxBatchDelay in {0,1ms,10ms,100ms}, and a failure plan per call (ok / error or panic on first, second or every invocation); each function increments its caller's counter (read-modify-write) and writes a unique token. Oracle: nil return => token committed and counter advanced exactly once per successful call; error return => it is the call's own error/panic value and neither token nor increment is committed; every call returns once the clock may advance. distinct_nontrivial = distinct schedule fingerprints among runs with at least two Batch calls",
+		RealStub: "real: all of bbolt incl. DB.Batch, its timer (time.AfterFunc) and the goroutines it spawns, real sync primitives; injected: I/O errors on the k-th pwrite/fdatasync/ftruncate/fsync call (a third of the runs); simulated: which goroutine runs next (token scheduler; goroutines bbolt spawns are adopted at the batch.trigger hook), the clock (synctest bubble: MaxBatchDelay timers fire only when the scheduler advances time), map iteration order",
+		Rule:     "one evaluation = one seeded run of 1-8 caller tasks issuing 1-3 Batch calls each (plus optional plain Update callers) with MaxBatchSize in {0,1,2,3,1000}, MaxBatchDelay in {0,1ms,10ms,100ms}, and a failure plan per call (ok / error or panic on first, second or every invocation); each function increments its caller's counter (read-modify-write) and writes a unique token. Oracle: nil return => token committed and counter advanced exactly once per successful call; error return => it is the call's own error/panic value and neither token nor increment is committed; every call returns once the clock may advance. In a third of the runs 1-2 I/O faults (EIO / short write / ENOSPC at a tape-chosen I/O call) are injected while the callers run: a call whose batch's commit failed must return that failure and none of its effects may be committed, the other calls are judged as before, and the file left behind must have exact page accounting. distinct_nontrivial = distinct schedule fingerprints among runs with at least two Batch calls",
 		Assume:   []string{"interleavings below hook granularity are not explored"}})
 }
